@@ -330,6 +330,11 @@ CHECKS["C14"] = {
          "params": {"quick": [{}], "thorough": [{}]}, "cover": ["lsub-done"]},
         {"name": "decode", "pkg": "internal/session", "pkgname": "session", "entry": "VerifC14Decode", "files": ["zz_verif_c14.go"],
          "with": ["backend_export", "state_export", "verifdb"], "params": {"quick": [{}], "thorough": [{}]}, "cover": ["decoded"]},
+        {"name": "wire", "pkg": "internal/session", "pkgname": "session", "entry": "VerifC14Wire", "files": ["zz_verif_c18.go", "zz_verif_c18b.go", "zz_verif_c01.go", "zz_verif_c01idle.go", "zz_verif_c01idle2.go", "zz_verif_c01wire.go", "zz_verif_c14wire.go"],
+         "with": ["state_export", "backend_export", "verifdb"], "goroutines": True, "concrete_time": True, "replay_timeout_s": 90,
+         "extra_overlay": {"internal/response/zz_verif_decode.go": "internal/response/zz_verif_decode.go"},
+         "params": {"quick": grid(k=[2, 3]), "thorough": grid(k=[4])},
+         "cover": ["namespace-accepted", "namespace-refused"]},
     ],
     "stubs": ["internal/verifdb relational model (UNIQUE name / remote id)", "state.Connector stub: CreateMailbox returns a fresh remote id"],
     "outside": ["the regexp engine itself (match() compiles the pattern to a regexp: on the concrete names and patterns of the list harness it is delegated to the Go library the engine is linked with)", "LSUB with a non-empty reference", "modified UTF-7 names beyond ASCII", "connector-side mailbox updates (see C06)"],
@@ -540,3 +545,5 @@ CHECKS["C17"]["explanation"] += " VerifC17Wire: on the wire through the real ses
 CHECKS["C18"]["explanation"] += " VerifC18WireIsolation: two users with a client each on the wire: whatever alice does to her account (CREATE, APPEND, STORE, EXPUNGE, COPY, RENAME), everything bob's client can see (LIST, STATUS, UID FETCH of his INBOX) stays what it was and bob cannot open what alice created."
 
 CHECKS["C06"]["explanation"] = CHECKS["C06"].get("explanation", "") + " VerifC06Wire: a connector update (message created / flags updated / deleted / mailboxes+flags updated) delivered twice through the real backend appliers, seen by a client on the wire: the first delivery is announced as described at the next NOOP, the re-delivery is acknowledged without error, makes the session send no EXISTS / EXPUNGE / FETCH and leaves UID FETCH 1:* (UID FLAGS) unchanged."
+
+CHECKS["C14"]["explanation"] = CHECKS["C14"].get("explanation", "") + " VerifC14Wire: the namespace as a client sees it on the wire through the real session loop: histories of CREATE / DELETE / RENAME over a pool of names against the reference hierarchy: each command answered OK or NO as the model says, LIST shows exactly INBOX, the existing names and their superiors."
